@@ -25,6 +25,9 @@ specification's gate applications (`Spec/Sem.lean`), rendered.
   `checkQubit_range`); `replStmt_v` … `expand_vok` (the induction of `Lemmas/ExpandFlat.lean` once more, for `VOK`: the expansion
   `x` is `OS` — `VOK` arguments, ordinary blocks with count 1); `evOK_of_vok`, `evalStmt_ok`, `flat_os_meaning` (a flat typed `OS`
   circuit has a meaning); `vs_of`, `allVals_spell`, `hasSub_skel` (the hypotheses for a parsed program).
+* EXISTENCE of the meaning of the SOURCE: `substVal_tot` (a value of a macro body whose substitution succeeds evaluates under
+  the inner bindings, to what the substituted value evaluates to), `replStmt_tot` … `filled_meaning` (the induction once more: a
+  filled circuit whose expansion succeeds has a meaning — the converse direction of `C04_meaning`).
 * `ArgAgree`, `argAgree_spec`, `RecRel.args` — the structured form of `argToken_spec` (no strings): the library's reading of an
   argument (`resolveQubit`, `resolveReg` of every element, the number itself) is the specification's value.
 -/
@@ -1303,6 +1306,392 @@ mutual
     | [] => rfl
     | s :: r => by simp only [ExpandSubcircuits.hasSubList, skels, skelSubList, hasSub_skel s, hasSubList_skel r]
 end
+
+/-! ### Totality of the SOURCE's meaning: a filled circuit whose expansion succeeds evaluates -/
+
+theorem valP_okVal {P : List String} {v : Val} (h : ValP P v = true) : okVal v = true := by
+  have regNP : ∀ w : Val, RegL w = true → ExpandMacros.noParam w = true :=
+    fun w hw => UsedQubits.RegT_noParam w (RegL_RegT w hw)
+  cases v with
+  | int _ => rfl
+  | flt _ => rfl
+  | param _ _ => rfl
+  | qubit n s i =>
+    simp only [ValP, Bool.and_eq_true, Bool.or_eq_true] at h
+    simp only [okVal, Bool.and_eq_true, Bool.or_eq_true]
+    refine ⟨?_, ?_⟩
+    · rcases h.1 with h1 | h1
+      · exact Or.inr (regNP s h1)
+      · left; cases s <;> simp [inP] at h1; rfl
+    · rcases h.2 with h1 | h1
+      · right; cases i <;> simp [isIntL] at h1; rfl
+      · left; cases i <;> simp [inP] at h1; rfl
+  | regF n s => exact regNP _ (by simpa [ValP] using h)
+  | regA n s => exact regNP _ (by simpa [ValP] using h)
+  | regS n s a b c => exact regNP _ (by simpa [ValP] using h)
+  | const _ _ => simp [ValP, RegL] at h
+  | none => simp [ValP, RegL] at h
+  | str _ => simp [ValP, RegL] at h
+
+/-- a covered parameter: what is substituted for it, and what the inner bindings hold for it -/
+theorem param_bound {P : List String} {args : List (String × Val)} {vs : List SArg}
+    (hcov : ∀ p ∈ P, ∃ a, lookupArg args p = some a) (hvs : evalArgs [] [] args = .ok vs) {v w : Val}
+    (hv : inP P v = true) (h : substVal args v = .ok w) :
+    ∃ n k, v = .param n k ∧ ∃ sa, evalArg [] [] w = .ok sa ∧ lookup (bindOf args vs) n = some sa := by
+  cases v <;> simp [inP] at hv
+  rename_i n k
+  obtain ⟨a, ha⟩ := hcov n hv
+  have hl := lookup_bindOf hvs n
+  rw [ha] at hl
+  simp only [substVal, ha] at h
+  split at h
+  · cases h
+    exact ⟨n, k, rfl, hl⟩
+  · cases h
+
+/-- **value-level totality**: a value of a macro body whose substitution succeeds evaluates under the inner bindings -/
+theorem substVal_tot {P : List String} {args : List (String × Val)} {vs : List SArg}
+    (hargs : ∀ e ∈ args, argT e.2 = true) (hvok : ∀ e ∈ args, VOK e.2)
+    (hcov : ∀ p ∈ P, ∃ a, lookupArg args p = some a) (hvs : evalArgs [] [] args = .ok vs) {v w : Val}
+    (hv : ValP P v = true) (hk : VOK v) (h : substVal args v = .ok w) :
+    ∃ sa, evalArg [] (bindOf args vs) v = .ok sa := by
+  have closed : ∀ u : Val, argT u = true → VOK u → ExpandMacros.noParam u = true →
+      ∃ sa, evalArg [] (bindOf args vs) u = .ok sa := by
+    intro u h1 h2 h3
+    obtain ⟨sa, hsa⟩ := evOK_of_vok h1 h2
+    exact ⟨sa, by rw [evalArg_noParam [] (bindOf args vs) [] u h3]; exact hsa⟩
+  cases v with
+  | int _ => exact closed _ rfl trivial rfl
+  | flt _ => exact closed _ rfl trivial rfl
+  | param n k =>
+    obtain ⟨n', k', he, sa, _, hl⟩ := param_bound hcov hvs (by simpa [ValP, inP] using hv) h
+    cases he
+    exact ⟨sa, by simp only [evalArg, hl]; rfl⟩
+  | none => simp [ValP, RegL] at hv
+  | str _ => simp [ValP, RegL] at hv
+  | const _ _ => simp [ValP, RegL] at hv
+  | regF n s =>
+    have hL : RegL (.regF n s) = true := by simpa [ValP] using hv
+    exact closed _ (RegL_argT hL) hk (UsedQubits.RegT_noParam _ (RegL_RegT _ hL))
+  | regA n s =>
+    have hL : RegL (.regA n s) = true := by simpa [ValP] using hv
+    exact closed _ (RegL_argT hL) hk (UsedQubits.RegT_noParam _ (RegL_RegT _ hL))
+  | regS n s a b c =>
+    have hL : RegL (.regS n s a b c) = true := by simpa [ValP] using hv
+    exact closed _ (RegL_argT hL) hk (UsedQubits.RegT_noParam _ (RegL_RegT _ hL))
+  | qubit nm src idx =>
+    have hw := substVal_vok hargs hvok hcov hv hk h
+    simp only [ValP, Bool.and_eq_true, Bool.or_eq_true] at hv
+    simp only [substVal] at h
+    obtain ⟨s, hs, h⟩ := bind_ok h
+    split at h
+    · cases h
+    · rename_i harr
+      have harr' : isArrayLike s = true := by simpa using harr
+      obtain ⟨i0, hi, h⟩ := bind_ok h
+      have hsT : RegT s = true := by
+        rcases hv.1 with h1 | h1
+        · rw [substVal_reg (RegL_isReg h1)] at hs
+          cases hs; exact RegL_RegT _ h1
+        · exact argT_arrayLike (substVal_param_in hargs hcov h1 hs) harr'
+      have hiT : argT i0 = true := by
+        rcases hv.2 with h1 | h1
+        · cases idx <;> simp [isIntL] at h1
+          simp only [substVal, pure, Except.pure] at hi; cases hi; rfl
+        · exact substVal_param_in hargs hcov h1 hi
+      obtain ⟨nm', hwq⟩ := getItem_ok h
+      subst hwq
+      obtain ⟨hV, _, hrange⟩ := hw
+      have hr := RegT_isRegister' hsT
+      have hsV := hV hr
+      -- the index is a literal int after `filter_float`
+      have hchk : checkQubit s (filterFloat i0) = .ok () := by
+        unfold ExpandMacros.getItem at h
+        cases s <;> simp [RegT] at hsT <;> simp only [Val.name?] at h <;>
+          (obtain ⟨u, hu, _⟩ := bind_ok h; cases u; exact hu)
+      have hL := checkQubit_closed hsT hiT hchk
+      obtain ⟨k, hk'⟩ : ∃ k, filterFloat i0 = .int k := by
+        cases hff : filterFloat i0 <;> rw [hff] at hL <;> simp [isIntL] at hL
+        exact ⟨_, rfl⟩
+      obtain ⟨K, hK, h0, hlt⟩ := hrange k hk' hr
+      obtain ⟨l, hl, hlen, hin, _⟩ := chain_spec hsV hK
+      obtain ⟨q, hq, _⟩ := hin k h0 hlt
+      -- the source evaluates to the same list under the inner bindings
+      have hreg : evalReg [] (bindOf args vs) src = .ok l := by
+        rcases hv.1 with h1 | h1
+        · rw [substVal_reg (RegL_isReg h1)] at hs
+          cases hs
+          rw [evalReg_noParam [] (bindOf args vs) [] _ (UsedQubits.RegT_noParam _ hsT)]
+          exact hl
+        · obtain ⟨n, kd, rfl, sa, hsa, hlk⟩ := param_bound hcov hvs h1 hs
+          have : sa = .reg l := by
+            cases s <;> simp [RegT] at hsT <;>
+              (simp only [evalArg, hl, bind, Except.bind, pure, Except.pure, Except.ok.injEq] at hsa; exact hsa.symm)
+          subst this
+          simp only [evalReg, hlk]
+          rfl
+      -- the index evaluates to the same int
+      have hint : evalInt [] (bindOf args vs) idx = .ok k := by
+        have e0 : evalInt [] [] i0 = .ok k := by
+          rw [← filterFloat_evalNum_int [] [] i0, hk']
+          rfl
+        rcases hv.2 with h1 | h1
+        · cases idx <;> simp [isIntL] at h1
+          simp only [substVal, pure, Except.pure, Except.ok.injEq] at hi
+          subst hi
+          exact e0
+        · obtain ⟨n, kd, rfl, sa, hsa, hlk⟩ := param_bound hcov hvs h1 hi
+          cases i0 with
+          | int j =>
+            simp only [evalArg, evalNum, bind, Except.bind, pure, Except.pure, Except.ok.injEq] at hsa
+            subst hsa
+            simp only [evalInt, evalNum, hlk, bind, Except.bind, pure, Except.pure] at e0 ⊢
+            exact e0
+          | flt d =>
+            simp only [evalArg, evalNum, bind, Except.bind, pure, Except.pure, Except.ok.injEq] at hsa
+            subst hsa
+            simp only [evalInt, evalNum, hlk, bind, Except.bind, pure, Except.pure] at e0 ⊢
+            exact e0
+          | _ => simp [filterFloat] at hk'
+      refine ⟨.qubit q, ?_⟩
+      simp only [evalArg, evalQubit, hint, hreg, bind, Except.bind, pure, Except.pure, nth?_of_nonneg l h0, hq]
+
+theorem substArgs_tot {P : List String} {args : List (String × Val)} {vs : List SArg}
+    (hargs : ∀ e ∈ args, argT e.2 = true) (hvok : ∀ e ∈ args, VOK e.2)
+    (hcov : ∀ p ∈ P, ∃ a, lookupArg args p = some a) (hvs : evalArgs [] [] args = .ok vs) :
+    ∀ (gargs new : List (String × Val)), (∀ a ∈ gargs, ValP P a.2 = true) → (∀ a ∈ gargs, VOK a.2) →
+      substArgs args gargs = .ok new → ∃ ws, evalArgs [] (bindOf args vs) gargs = .ok ws
+  | [], _, _, _, _ => ⟨[], rfl⟩
+  | (n, v) :: rest, new, hv, hk, h => by
+    simp only [substArgs] at h
+    obtain ⟨v', hv', h⟩ := bind_ok h
+    obtain ⟨rest', hr, _⟩ := bind_ok h
+    obtain ⟨x, hx⟩ := substVal_tot hargs hvok hcov hvs (hv (n, v) (List.mem_cons_self ..)) (hk (n, v) (List.mem_cons_self ..)) hv'
+    obtain ⟨xs, hxs⟩ := substArgs_tot hargs hvok hcov hvs rest rest' (fun a ha => hv a (List.mem_cons_of_mem _ ha))
+      (fun a ha => hk a (List.mem_cons_of_mem _ ha)) hr
+    exact ⟨x :: xs, by simp only [evalArgs, hx, hxs, bind, Except.bind, pure, Except.pure]⟩
+
+mutual
+  /-- every block has the iteration count `1` -/
+  def It1 : Stmt → Prop
+    | .gate _ _ _ => True
+    | .block _ _ it body => it = .int 1 ∧ It1L body
+    | .loop _ b => It1 b
+  def It1L : List Stmt → Prop
+    | [] => True
+    | s :: r => It1 s ∧ It1L r
+end
+
+mutual
+  theorem it1_of : ∀ (s : Stmt), BlocksOK s → ExpandSubcircuits.hasSub s = false → It1 s
+    | .gate _ _ _, _, _ => trivial
+    | .block par sub it body, hb, hs => by
+      simp only [ExpandSubcircuits.hasSub, Bool.or_eq_false_iff] at hs
+      simp only [BlocksOK] at hb
+      exact ⟨hb.1 hs.1, it1L_of body hb.2.2 hs.2⟩
+    | .loop c b, hb, hs => by
+      simp only [ExpandSubcircuits.hasSub] at hs
+      simp only [BlocksOK] at hb
+      exact it1_of b hb hs
+  theorem it1L_of : ∀ (l : List Stmt), BlocksOKList l → ExpandSubcircuits.hasSubList l = false → It1L l
+    | [], _, _ => trivial
+    | s :: r, hb, hs => by
+      simp only [ExpandSubcircuits.hasSubList, Bool.or_eq_false_iff] at hs
+      exact ⟨it1_of s hb.1 hs.1, it1L_of r hb.2 hs.2⟩
+end
+
+/-- the property of `call` the induction needs: a validated call with closed typed `VOK` arguments that expands has a meaning -/
+def CallTot (nat : List GateDef) (ms : List Macro) (call : Stmt → M Stmt) : Prop :=
+  ∀ (n : String) (gd : GateDef) (a : List (String × Val)) (g' : Stmt), GateStatic nat ms n gd →
+    a.map (·.1) = gd.params.map (·.1) → (∀ e ∈ a, argT e.2 = true) → (∀ e ∈ a, VOK e.2) →
+    GateDef.validateAll gd.params a = .ok () → call (.gate n gd a) = .ok g' →
+    ∃ y, evalStmt [] (denoteMacros [] ms) [] (.gate n gd a) = .ok y
+
+theorem closedArgs_eval {a : List (String × Val)} (ha : ∀ e ∈ a, argT e.2 = true) (hk : ∀ e ∈ a, VOK e.2) :
+    ∃ vs, evalArgs [] [] a = .ok vs :=
+  evalArgs_ok a (fun e he => evOK_of_vok (ha e he) (hk e he))
+
+section tot
+variable (nat : List GateDef) (ms : List Macro)
+
+mutual
+  theorem replStmt_tot (call : Stmt → M Stmt) (hc : CallTot nat ms call) (P : List String)
+      (args : List (String × Val)) (vs : List SArg) (hargs : ∀ e ∈ args, argT e.2 = true) (hvok : ∀ e ∈ args, VOK e.2)
+      (hcov : ∀ p ∈ P, ∃ a, lookupArg args p = some a) (hvs : evalArgs [] [] args = .ok vs) :
+      ∀ (s s' : Stmt), PreS nat ms P s → VS s → It1 s → replStmt call args s = .ok s' →
+        ∃ y, evalStmt [] (denoteMacros [] ms) (bindOf args vs) s = .ok y
+    | .gate n gd gargs, s', hp, hvs', _, h => by
+      obtain ⟨hst, hn, hv, _⟩ := hp
+      simp only [replStmt] at h
+      obtain ⟨new, hnew, h⟩ := bind_ok h
+      obtain ⟨g, hg, h⟩ := bind_ok h
+      obtain ⟨hnn, hna⟩ := substArgs_typed hargs hcov gargs new hv hnew
+      have hnv := substArgs_vok hargs hvok hcov gargs new hv hvs' hnew
+      have hnames : new.map (·.1) = gd.params.map (·.1) := by rw [hnn, hn]
+      rw [callKw_eq_finish hnames hst.nodup] at hg
+      unfold GateDef.finish at hg
+      split at hg
+      · simp [throw, throwThe, MonadExceptOf.throw, bind, Except.bind] at hg
+      · obtain ⟨u, hu, hg⟩ := bind_ok hg
+        cases hg
+        have hname := hst.name
+        subst hname
+        obtain ⟨y, hy⟩ := hc gd.name gd new s' hst hnames hna hnv (by cases u; exact hu) h
+        obtain ⟨ws, hws, hgs⟩ := evalStmt_gate_inv hy
+        obtain ⟨ws', hws'⟩ := substArgs_tot hargs hvok hcov hvs gargs new hv hvs' hnew
+        have e := (subst_args hvs hnew (fun a ha => valP_okVal (hv a ha)) hws').1
+        rw [hws] at e
+        cases e
+        refine ⟨y, ?_⟩
+        rw [evalStmt_gate, hws']
+        exact hgs
+    | .loop c body, s', hp, hvs', hi, h => by
+      obtain ⟨hcnt, _, hb⟩ := hp
+      simp only [replStmt] at h
+      obtain ⟨c', hc', h⟩ := bind_ok h
+      obtain ⟨b', hb', h⟩ := bind_ok h
+      obtain ⟨_, hbc⟩ := mkLoop_ok h
+      obtain ⟨y, hy⟩ := replStmt_tot call hc P args vs hargs hvok hcov hvs body b' hb hvs' hi hb'
+      have hcount : ∃ k, evalInt [] (bindOf args vs) c = .ok k := by
+        cases c <;> simp [CntP] at hcnt
+        · exact ⟨_, rfl⟩
+        · rename_i n kd
+          have hin : inP P (.param n kd) = true := by simpa [inP] using hcnt
+          have hcT : argT c' = true := substVal_param_in hargs hcov hin hc'
+          obtain ⟨n', kd', he, sa, hsa, hlk⟩ := param_bound hcov hvs hin hc'
+          cases he
+          have hint : ∃ k, c' = .int k := by
+            cases c' <;> simp [badCount] at hbc <;> first | exact ⟨_, rfl⟩ | (simp [argT, RegT] at hcT)
+          obtain ⟨k, rfl⟩ := hint
+          simp only [evalArg, evalNum, bind, Except.bind, pure, Except.pure, Except.ok.injEq] at hsa
+          subst hsa
+          exact ⟨k, by simp only [evalInt, evalNum, hlk, bind, Except.bind, pure, Except.pure]⟩
+      obtain ⟨k, hk⟩ := hcount
+      exact ⟨.loop k y, by simp only [evalStmt, hk, hy, bind, Except.bind, pure, Except.pure]⟩
+    | .block par sub it body, s', hp, hvs', hi, h => by
+      simp only [PreS] at hp
+      obtain ⟨_, hvb⟩ := hvs'
+      obtain ⟨rfl, hib⟩ := hi
+      simp only [replStmt] at h
+      obtain ⟨stmts, hs, _⟩ := bind_ok h
+      obtain ⟨ys, hys⟩ := replList_tot call hc P args vs hargs hvok hcov hvs par body stmts hp hvb hib hs
+      exact ⟨.blk par sub 1 ys, by
+        simp only [evalStmt, evalInt, evalNum, hys, bind, Except.bind, pure, Except.pure]⟩
+  theorem replList_tot (call : Stmt → M Stmt) (hc : CallTot nat ms call) (P : List String)
+      (args : List (String × Val)) (vs : List SArg) (hargs : ∀ e ∈ args, argT e.2 = true) (hvok : ∀ e ∈ args, VOK e.2)
+      (hcov : ∀ p ∈ P, ∃ a, lookupArg args p = some a) (hvs : evalArgs [] [] args = .ok vs) (par : Bool) :
+      ∀ (l l' : List Stmt), PreSL nat ms P l → VSL l → It1L l → replList call args par l = .ok l' →
+        ∃ ys, evalStmts [] (denoteMacros [] ms) (bindOf args vs) l = .ok ys
+    | [], _, _, _, _, _ => ⟨[], rfl⟩
+    | s :: r, l', hp, hvs', hi, h => by
+      simp only [replList] at h
+      obtain ⟨s', hs', h⟩ := bind_ok h
+      obtain ⟨r', hr', _⟩ := bind_ok h
+      obtain ⟨y, hy⟩ := replStmt_tot call hc P args vs hargs hvok hcov hvs s s' hp.1 hvs'.1 hi.1 hs'
+      obtain ⟨ys, hys⟩ := replList_tot call hc P args vs hargs hvok hcov hvs par r r' hp.2 hvs'.2 hi.2 hr'
+      exact ⟨y :: ys, by simp only [evalStmts, hy, hys, bind, Except.bind, pure, Except.pure]⟩
+end
+
+theorem gate_plain_tot {n : String} {gd : GateDef} {a : List (String × Val)} (ha : ∀ e ∈ a, argT e.2 = true)
+    (hk : ∀ e ∈ a, VOK e.2) (hf : findMacro ms n = none) :
+    ∃ y, evalStmt [] (denoteMacros [] ms) [] (.gate n gd a) = .ok y := by
+  obtain ⟨vs, hvs⟩ := closedArgs_eval ha hk
+  refine ⟨.gate n vs, ?_⟩
+  rw [evalStmt_gate, hvs]
+  simp only [bind, Except.bind, gateSem, findMacro_none_lookup [] ms n hf]
+  rfl
+
+theorem replaceGate_tot (hwf : wfMacrosFrom ms [] ms = true) (hms : ∀ m ∈ ms, PreS nat ms (m.params.map (·.1)) m.body)
+    (hvm : ∀ m ∈ ms, VS m.body) (him : ∀ m ∈ ms, It1 m.body) : ∀ (fuel : Nat), CallTot nat ms (replaceGate ms fuel) := by
+  intro fuel
+  induction fuel with
+  | zero =>
+    intro n gd a g' hst hn ha hk hval h
+    simp only [replaceGate] at h
+    cases hf : findMacro ms n with
+    | none => exact gate_plain_tot ms ha hk hf
+    | some m => rw [hf] at h; simp only at h; split at h <;> cases h
+  | succ f ih =>
+    intro n gd a g' hst hn ha hk hval h
+    simp only [replaceGate] at h
+    cases hf : findMacro ms n with
+    | none => exact gate_plain_tot ms ha hk hf
+    | some m =>
+      rw [hf] at h; simp only at h
+      split at h
+      · cases h
+      · rename_i hlen
+        have hmem : m ∈ ms := List.mem_of_find?_eq_some hf
+        obtain ⟨vs, hvs⟩ := closedArgs_eval ha hk
+        have hcov : ∀ p ∈ m.params.map (·.1), ∃ x, lookupArg a p = some x := by
+          intro p hp
+          apply lookupArg_of_names
+          rw [hn, hst.mac m hf]
+          exact hp
+        obtain ⟨y, hy⟩ := replStmt_tot nat ms (replaceGate ms f) ih (m.params.map (·.1)) a vs ha hk hcov hvs m.body g'
+          (hms m hmem) (hvm m hmem) (him m hmem) h
+        obtain ⟨_, fn, hl, hfn⟩ := lookup_denote [] ms hwf n m hf
+        refine ⟨y, ?_⟩
+        rw [evalStmt_gate, hvs]
+        have hlen' : vs.length = m.params.length := by
+          rw [evalArgs_length hvs]
+          exact Decidable.of_not_not hlen
+        have hb : (m.params.map (·.1)).zip vs = bindOf a vs := by
+          unfold bindOf
+          rw [hn, hst.mac m hf]
+        simp only [bind, Except.bind, gateSem, hl, hlen', if_true, hfn, hb]
+        exact hy
+
+mutual
+  theorem expStmt_tot (call : Stmt → M Stmt) (hc : CallTot nat ms call) :
+      ∀ (s s' : Stmt), PreS nat ms [] s → VS s → It1 s → expStmt call s = .ok s' →
+        ∃ y, evalStmt [] (denoteMacros [] ms) [] s = .ok y
+    | .gate n gd gargs, s', hp, hvs, _, h => by
+      obtain ⟨hst, hn, hv, hval⟩ := hp
+      simp only [expStmt] at h
+      exact hc n gd gargs s' hst hn (fun e he => ValP_nil_argT (hv e he)) hvs hval h
+    | .loop c body, s', hp, hvs, hi, h => by
+      obtain ⟨hcnt, _, hb⟩ := hp
+      simp only [expStmt] at h
+      obtain ⟨b', hb', _⟩ := bind_ok h
+      obtain ⟨y, hy⟩ := expStmt_tot call hc body b' hb hvs hi hb'
+      have hint : ∃ k, c = .int k := by cases c <;> simp [CntP] at hcnt; exact ⟨_, rfl⟩
+      obtain ⟨k, rfl⟩ := hint
+      exact ⟨.loop k y, by simp only [evalStmt, evalInt, evalNum, hy, bind, Except.bind, pure, Except.pure]⟩
+    | .block par sub it body, s', hp, hvs, hi, h => by
+      simp only [PreS] at hp
+      obtain ⟨_, hvb⟩ := hvs
+      obtain ⟨rfl, hib⟩ := hi
+      simp only [expStmt] at h
+      obtain ⟨stmts, hs, _⟩ := bind_ok h
+      obtain ⟨ys, hys⟩ := expList_tot call hc par body stmts hp hvb hib hs
+      exact ⟨.blk par sub 1 ys, by
+        simp only [evalStmt, evalInt, evalNum, hys, bind, Except.bind, pure, Except.pure]⟩
+  theorem expList_tot (call : Stmt → M Stmt) (hc : CallTot nat ms call) (par : Bool) :
+      ∀ (l l' : List Stmt), PreSL nat ms [] l → VSL l → It1L l → expList call par l = .ok l' →
+        ∃ ys, evalStmts [] (denoteMacros [] ms) [] l = .ok ys
+    | [], _, _, _, _, _ => ⟨[], rfl⟩
+    | s :: r, l', hp, hvs, hi, h => by
+      simp only [expList] at h
+      obtain ⟨s', hs', h⟩ := bind_ok h
+      obtain ⟨r', hr', _⟩ := bind_ok h
+      obtain ⟨y, hy⟩ := expStmt_tot call hc s s' hp.1 hvs.1 hi.1 hs'
+      obtain ⟨ys, hys⟩ := expList_tot call hc par r r' hp.2 hvs.2 hi.2 hr'
+      exact ⟨y :: ys, by simp only [evalStmts, hy, hys, bind, Except.bind, pure, Except.pure]⟩
+end
+
+end tot
+
+/-- **a filled circuit whose expansion succeeds has a meaning** (the converse direction of `C04_meaning`, for what
+`fill_in_let` returns of a parsed program) -/
+theorem filled_meaning {c x : Circuit} (hp : PreC c) (hwf : wfMacrosFrom c.macros [] c.macros = true) (hvb : VS c.body)
+    (hvm : ∀ m ∈ c.macros, VS m.body) (hib : It1 c.body) (him : ∀ m ∈ c.macros, It1 m.body)
+    (h : expandMacros false c = .ok x) : ∃ y, evalStmt [] (denoteMacros [] c.macros) [] c.body = .ok y := by
+  unfold expandMacros at h
+  obtain ⟨body, hbody, _⟩ := bind_ok h
+  have hcall := replaceGate_tot c.natives c.macros hwf hp.macros hvm him c.macros.length
+  exact expStmt_tot c.natives c.macros _ hcall c.body body hp.body hvb hib hbody
+
 
 end Exists
 
